@@ -298,10 +298,15 @@ fn eval_inner(c: &Case, obs: &mut Obs) -> Verdict {
                             age_s: 0,
                             second: None,
                         };
-                        match c02::eval(&sc) {
-                            Verdict::Pass(_) => {}
-                            Verdict::Fail(m) => vfail!("server configuration chunk={} window={} bandwidth={} was accepted but the session does not work: {}", chunk, window, bandwidth, m),
-                            other => return other,
+                        // three deliveries: large pieces, byte by byte, small pieces (a configuration
+                        // value may only matter for one way the peer's reads fall)
+                        for drain in [997u16, 1, 7] {
+                            let sc = c02::Scenario { drain, ..sc.clone() };
+                            match c02::eval(&sc) {
+                                Verdict::Pass(_) => {}
+                                Verdict::Fail(m) => vfail!("server configuration chunk={} window={} bandwidth={} was accepted but the session does not work (delivery in pieces of {}): {}", chunk, window, bandwidth, drain, m),
+                                other => return other,
+                            }
                         }
                         obs.class("server-config-accepted-and-working");
                     }
@@ -400,10 +405,13 @@ fn eval_inner(c: &Case, obs: &mut Obs) -> Verdict {
                         age_s: 0,
                         second: None,
                     };
-                    match c02::eval(&sc) {
-                        Verdict::Pass(_) => {}
-                        Verdict::Fail(m) => vfail!("client configuration chunk={} window={} was accepted but the session does not work: {}", chunk, window, m),
-                        other => return other,
+                    for drain in [1499u16, 1, 7] {
+                        let sc = c02::Scenario { drain, ..sc.clone() };
+                        match c02::eval(&sc) {
+                            Verdict::Pass(_) => {}
+                            Verdict::Fail(m) => vfail!("client configuration chunk={} window={} was accepted but the session does not work (delivery in pieces of {}): {}", chunk, window, drain, m),
+                            other => return other,
+                        }
                     }
                 }
                 obs.class("client-config-accepted-and-working");
